@@ -8,7 +8,6 @@ import (
 	"math/big"
 	"os"
 	"testing"
-	"testing/synctest"
 	"time"
 
 	"gitlab.com/gomidi/midi/v2/drivers"
@@ -543,7 +542,7 @@ func (s *PlaySc) Run(env *core.Env, st *core.Stats) (vs []core.Violation) {
 		}
 	}
 	if env != nil && env.T != nil {
-		synctest.Test(env.T, body)
+		runBubble(env, body)
 	} else {
 		body(nil)
 	}
